@@ -59,6 +59,7 @@ impl Collector {
 
     /// Record one executed case. `sample` is only evaluated when a sample slot is free.
     pub fn record(&self, info: &CaseInfo, sample: impl FnOnce() -> Value) {
+        crate::driver::HEARTBEAT.fetch_add(1, std::sync::atomic::Ordering::Relaxed);
         let mut g = self.inner.lock().unwrap();
         g.evaluations += 1;
         g.excluded_known += info.excluded_known;
